@@ -102,6 +102,66 @@ pub mod num_bigint {
         pub fn from_signed_bytes_be(bytes: &[u8]) -> (r: BigInt)
             ensures r@ == signed_be(bytes@)
         { unimplemented!() }
+
+        /// two's-complement little-endian bytes (ASSUMED, from the crate's documentation): at least one byte
+        #[verifier::external_body]
+        pub fn to_signed_bytes_le(&self) -> (r: Vec<u8>)
+            ensures r@.len() >= 1, signed_le(r@) == self@, r@.len() < 0x1000_0000_0000_0000
+        { unimplemented!() }
+        #[verifier::external_body]
+        pub fn from_signed_bytes_le(bytes: &[u8]) -> (r: BigInt)
+            ensures r@ == signed_le(bytes@)
+        { unimplemented!() }
+    }
+    pub open spec fn p256(n: nat) -> int decreases n { if n == 0 { 1 } else { 256 * p256((n - 1) as nat) } }
+    pub open spec fn unsigned_le(bytes: Seq<u8>) -> int decreases bytes.len() {
+        if bytes.len() == 0 { 0 } else { bytes[0] as int + 256 * unsigned_le(bytes.drop_first()) }
+    }
+    pub open spec fn signed_le(bytes: Seq<u8>) -> int {
+        if bytes.len() > 0 && bytes.last() >= 0x80 { unsigned_le(bytes) - p256(bytes.len()) } else { unsigned_le(bytes) }
+    }
+    /// every byte complemented
+    pub open spec fn flipped(bytes: Seq<u8>) -> Seq<u8> { Seq::new(bytes.len(), |j: int| !bytes[j]) }
+    pub proof fn lemma_unsigned_le_bound(s: Seq<u8>)
+        ensures 0 <= unsigned_le(s) < p256(s.len())
+        decreases s.len()
+    {
+        if s.len() > 0 { lemma_unsigned_le_bound(s.drop_first()); }
+    }
+    pub proof fn lemma_unsigned_le_push_zero(s: Seq<u8>)
+        ensures unsigned_le(s.push(0u8)) == unsigned_le(s)
+        decreases s.len()
+    {
+        if s.len() > 0 {
+            lemma_unsigned_le_push_zero(s.drop_first());
+            assert(s.push(0u8).drop_first() =~= s.drop_first().push(0u8));
+            assert(s.push(0u8)[0] == s[0]);
+        } else {
+            assert(s.push(0u8).drop_first() =~= Seq::<u8>::empty());
+            assert(s.push(0u8)[0] == 0u8);
+            assert(unsigned_le(Seq::<u8>::empty()) == 0);
+        }
+    }
+    pub proof fn lemma_unsigned_le_flipped(s: Seq<u8>)
+        ensures unsigned_le(flipped(s)) + unsigned_le(s) == p256(s.len()) - 1
+        decreases s.len()
+    {
+        if s.len() > 0 {
+            lemma_unsigned_le_flipped(s.drop_first());
+            assert(flipped(s).drop_first() =~= flipped(s.drop_first()));
+            let b = s[0];
+            assert((!b) as int == 255 - b as int) by (bit_vector);
+        }
+    }
+    /// complementing every byte of a two's-complement encoding yields the encoding of -x - 1
+    pub proof fn lemma_signed_le_flipped(s: Seq<u8>)
+        requires s.len() >= 1
+        ensures signed_le(flipped(s)) == -signed_le(s) - 1
+    {
+        lemma_unsigned_le_flipped(s);
+        let b = s.last();
+        assert(((!b) >= 0x80u8) == (b < 0x80u8)) by (bit_vector);
+        assert(flipped(s).last() == !b);
     }
 
     // ---- conversions from primitive integers
